@@ -120,7 +120,7 @@ def same_result(tag, got, want):
             if k not in v1[g]:
                 continue
             a, b = v1[g][k], v2[g][k]
-            prove("%s.length[%s/%s]" % (tag, g, k), a._array.ndim == b._array.ndim and (a._array.ndim == 0 or bool(a.shape[0] == b.shape[0])))
+            prove("%s.length[%s/%s]" % (tag, g, k), core.conj(a._array.ndim == b._array.ndim, True if a._array.ndim != 1 else (a.shape[0] == b.shape[0])))
             prove("%s.unit[%s/%s]" % (tag, g, k), a.unit == b.unit)
             if a._array.ndim == 1:
                 q = core.fresh_int("q_%s_%s" % (g, k.replace(".", "_")), 0)
